@@ -30,11 +30,13 @@ static char* ev_take(void)
     return r;
 }
 
-static void* h_alloc(const GPAllocator* a, size_t n) { (void)a; void* p = malloc(n ? n : 1); if (!p) abort(); return p; }
+static long h_live;                       /* blocks obtained through gp_heap and not yet given back (all threads) */
+static void* h_alloc(const GPAllocator* a, size_t n) { (void)a; void* p = malloc(n ? n : 1); if (!p) abort(); __atomic_add_fetch(&h_live, 1, __ATOMIC_SEQ_CST); return p; }
 static void h_dealloc(const GPAllocator* a, void* p)
 {
     (void)a;
     if (!p) return;
+    __atomic_sub_fetch(&h_live, 1, __ATOMIC_SEQ_CST);
     if (me) for (size_t i = 0; i < me->ns; i++)
         if (me->sc[i].live && me->sc[i].first_node == p) { me->sc[i].live = 0; ev_add("r%lu", (unsigned long)i); }
     free(p);
@@ -125,7 +127,9 @@ int main(void)
             }
         }
         for (size_t i = 0; i < nlines; i++) { puts(outs[i] ? outs[i] : "no-output"); free(outs[i]); free(lines[i]); }
-        puts("end");
+        /* every thread of the case has exited: whatever it obtained from the heap (scope arenas, the per-thread scope
+         * registry and its nodes) must have been given back */
+        if (h_live == 0) puts("end"); else { printf("end LEAK:%ld\n", h_live); h_live = 0; }
         for (int t = 0; t < MAXT; t++) if (ts[t]) { free(ts[t]->ev); free(ts[t]); }
         fflush(stdout);
     }
